@@ -252,6 +252,74 @@ theorem roundtrip_dot1q_priority_counterexample :
     (dot1qSerSpec l []).err = false ∧ (dot1qDecSpec (dot1qSerSpec l []).bytes).layer.priority = 1 := by
   decide
 
+/-! ## The stack Ethernet / Dot1Q / payload through the layer parser -/
+
+/-- Stack round trip through the layer parser: Ethernet(type 802.1Q or QinQ) / Dot1Q / payload written
+    innermost-first (as SerializeLayers does) decodes — with the DecodingLayerParser over both layers,
+    whatever its two layer objects held before — to exactly [Ethernet, Dot1Q], no error from either
+    decoder, no truncation, fields ≈ the written layers, and the tag's payload is `p`.  (`42 ≤ |p|`:
+    the Ethernet payload is then ≥ 46 bytes, no padding; the tag's Type must not itself continue the
+    parser into one of its two layers.) -/
+theorem stack_roundtrip (e : Ethernet) (q : Dot1Q) (p : Bytes) (b : SBuf) (fix csum csum2 : Bool)
+    (e0 : Ethernet) (q0 : Dot1Q) (foreign : Bytes)
+    (he : wfEth e) (het : e.ethernetType = ethernetTypeDot1Q ∨ e.ethernetType = ethernetTypeQinQ)
+    (hq : wfDot1Q q) (hn1 : q.nextLayerType ≠ LayerTypeEthernet) (hn2 : q.nextLayerType ≠ LayerTypeDot1Q)
+    (hp : 42 ≤ p.length) (hb : Inv b) (hc : contents b = p) :
+    ∃ o1 o2 st code, q.serializeTo b fix csum = .ok o1 ∧ o1.err = false ∧
+      e.serializeTo o1.buf true csum2 = .ok o2 ∧ o2.err = false ∧
+      dlpDecodeLayers e0 q0 { vis := contents o2.buf, tail := foreign } = .ok (st, code) ∧
+      st.decoded = [LayerTypeEthernet, LayerTypeDot1Q] ∧ st.trunc = false ∧
+      EthEquiv st.eth e ∧ Dot1QEquiv st.dot1q q ∧ st.dot1q.payload = p ∧
+      code = (if q.nextLayerType = LayerTypeZero then 0 else 2) := by
+  -- inner layer
+  obtain ⟨o1, ho1, hi1, -, he1, hb1⟩ := dot1q_serializeTo_refines q b fix csum hb
+  have hv : ¬ q.vlan > 0xFFF := by have := hq.2.1; omega
+  unfold dot1qSerSpec at he1 hb1
+  rw [if_neg hv, hc] at he1 hb1
+  simp only at he1 hb1
+  have hP1 := hb1 trivial
+  have hlen1 : (contents o1.buf).length = 4 + p.length := by rw [hP1]; simp [putBe16]; omega
+  -- outer layer
+  obtain ⟨hd, hs, hk⟩ := he
+  have h6 : 0x0600 ≤ e.ethernetType := by
+    rcases het with h | h <;> rw [h] <;> decide
+  have hty : e.ethernetType < 65536 := by
+    rcases het with h | h <;> rw [h] <;> decide
+  have hl0 : e.length = 0 := by
+    rcases hk with ⟨h, -⟩ | ⟨-, -, h⟩
+    · have : e.ethernetType = 0 := h; omega
+    · exact h
+  obtain ⟨o2, ho2, -, -, he2, hb2⟩ := eth_serializeTo_refines e o1.buf true csum2 hi1
+  rw [ethSerSpec_ethII e _ true ⟨hd, hs, hk⟩ h6, padBody_of_ge _ (by omega)] at he2 hb2
+  simp only at he2 hb2
+  have hB := hb2 trivial
+  refine ⟨o1, o2, ?_⟩
+  -- the parser run
+  have hnextE : ethTypeLayerType e.ethernetType = LayerTypeDot1Q := by
+    rcases het with h | h <;> rw [h] <;> decide
+  have h14 := (eth_frame_parts e.dstMAC e.srcMAC (contents o1.buf) e.ethernetType hd hs hty).2.2.2.2.2
+  have hdecE := ethDecSpec_ethII e.dstMAC e.srcMAC (contents o1.buf) e.ethernetType hd hs hty h6
+  have hdecQ := dot1qDecSpec_frame q p hq
+  unfold dlpDecodeLayers
+  rw [hB, dlpLoop_eth, if_neg (by unfold GSlice.len; simp only; omega)]
+  simp only [hdecE, Ethernet.nextLayerType, hnextE]
+  rw [if_neg (by unfold GSlice.len; simp only; omega)]
+  rw [dlpLoop_fuel _ ((GSlice.len { vis := contents o1.buf, tail := _ }) + 1) _ _ _
+    (by unfold GSlice.len; simp only [List.length_append]; omega) (Nat.lt_succ_self _)]
+  rw [dlpLoop_dot1q, if_neg (by unfold GSlice.len; simp only; omega)]
+  simp only [hP1, hdecQ]
+  rw [if_neg (by unfold GSlice.len; simp only; omega)]
+  simp only [Dot1Q.nextLayerType] at hn1 hn2 ⊢
+  generalize hf : GSlice.len (GSlice.mk (putBe16 (dot1qFirst q) ++ putBe16 q.type ++ p) _) = f
+  have hf' : f = (3 + p.length) + 1 := by
+    rw [← hf]; unfold GSlice.len; simp [putBe16]; omega
+  rw [hf', dlpLoop_other _ _ _ _ hn1 hn2]
+  by_cases hz : ethTypeLayerType q.type = LayerTypeZero
+  · rw [if_pos hz]
+    exact ⟨_, 0, ho1, he1, ho2, he2, rfl, rfl, rfl, ⟨rfl, rfl, rfl, hl0.symm⟩, ⟨rfl, rfl, rfl, rfl⟩, rfl, by simp [hz]⟩
+  · rw [if_neg hz]
+    exact ⟨_, 2, ho1, he1, ho2, he2, rfl, rfl, rfl, ⟨rfl, rfl, rfl, hl0.symm⟩, ⟨rfl, rfl, rfl, rfl⟩, rfl, by simp [hz]⟩
+
 /-! ## Non-vacuity: concrete well-formed layers inside the claims -/
 
 example : wfEth { Ethernet.fresh with dstMAC := [0xff,0xff,0xff,0xff,0xff,0xff], srcMAC := [0,0x1b,0x21,0x3c,0xab,0x10],
@@ -262,5 +330,13 @@ example : wfEth { Ethernet.fresh with dstMAC := [1,2,3,4,5,6], srcMAC := [7,8,9,
   decide
 
 example : wfDot1Q { Dot1Q.fresh with priority := 7, dropEligible := true, vlan := 0xFFF, type := 0x88a8 } := by decide
+
+/-- The hypotheses of `stack_roundtrip` are satisfiable (a VLAN-tagged IPv4 frame). -/
+example :
+    let e : Ethernet := { Ethernet.fresh with dstMAC := [1,2,3,4,5,6], srcMAC := [7,8,9,10,11,12], ethernetType := 0x8100 }
+    let q : Dot1Q := { Dot1Q.fresh with priority := 5, dropEligible := true, vlan := 100, type := 0x0800 }
+    wfEth e ∧ e.ethernetType = ethernetTypeDot1Q ∧ wfDot1Q q ∧
+    q.nextLayerType ≠ LayerTypeEthernet ∧ q.nextLayerType ≠ LayerTypeDot1Q ∧ q.nextLayerType = LayerTypeIPv4 := by
+  decide
 
 end Gp.C06.Eth
